@@ -37,9 +37,9 @@ CLAIMED = {
               'has_value(), poller): every waiter is released exactly once or told "already resolved" (never both), never before the result is set, it observes the final result, nobody stays blocked '
               '(deadlock query), nothing touches a waiter after its release (lifetime query).', 'DESIGN.md 3, 5/C02', T_E2),
     'C03': e2('(a) Lock-free core (E2, happens-before over all SC interleavings): resolver against poller / callback subscriber / blocking wait / coroutine protocol / has_value, two resolvers, and the mutex contention '
-              'scenarios whose critical section writes plain cells, the generic awaiter chain (registering threads against the collecting thread) and two threads on one reusable_storage_mtsafe: no pair of conflicting accesses with a non-atomic member is unordered by C++20 happens-before (release/acquire, release sequences, fences). '
+              'scenarios whose critical section writes plain cells (incl. an owner that hands over to a request registered earlier while another thread requests), the generic awaiter chain (registering threads against the collecting thread) and two threads on one reusable_storage_mtsafe: no pair of conflicting accesses with a non-atomic member is unordered by C++20 happens-before (release/acquire, release sequences, fences). '
               '(b) Lock discipline (E1, -DVF_DISCIPLINE): in every history of 3 (thorough 4) operations on queue, limited_queue, scheduler (manual mode) and publisher, every access to the component object and to heap '
-              'blocks allocated under its lock happens with the lock held. Non-SC executions and thread_pool are outside (C11 models the pool).', 'DESIGN.md 3.3, 3.7, 5/C03',
+              'blocks allocated under its lock happens with the lock held; the same for the thread_pool object (unit disc_pool, cooperative thread model of C11: submissions, workers, stop(), state queries also through thread_pool::current, co_await thread_pool::current()). Non-SC executions are outside.', 'DESIGN.md 3.3, 3.7, 5/C03',
               T_E2.replace('sequential-consistency encoding', 'sequential-consistency encoding plus C++20 happens-before as vector clocks (data-race query)') + ' ; lock discipline: ' + T_E1, engine='E1+E2'),
     'C04': e1('16 start modes (detach discarded / awaited, start(), start(promise) live / claimed, co_await from a parent, join(), future<T>(coro), returned as future<T>, never started; normal and coroutine mode) x 7 completion modes '
               '(sync value / throw, suspension on a future resolved from normal mode, from a coroutine discarding or awaiting the suspend point) x {int, void, counted} x nesting depth 0..3: body counters, RAII probes of arguments, '
@@ -58,16 +58,16 @@ CLAIMED = {
               'grant order must equal arrival order in every interleaving.', 'DESIGN.md 5/C08', T_E1 + ' ; ' + T_E2, engine='E1+E2'),
     'C09': e1('Every history over {push(v), pop, unblock_pop(e)} up to the stated length, then destruction, for queue<int>, queue<void>, a single_item_queue consumer variant and a real consumer coroutine: '
               'the real queue agrees with a FIFO-pair reference model after every step (which pop completes, with which value / exception, arrival order of waiters, size()/empty(), never both internal '
-              'queues non-empty, cancellation at destruction, allocation balance); values symbolic. Unit q_conc: pop against push of another thread at lock-region granularity.', 'DESIGN.md 3.7, 5/C09', T_E1 + T_INJ),
+              'queues non-empty, cancellation at destruction, allocation balance); values symbolic. Unit q_conc: two operations out of {push, pop, unblock_pop} of two threads interleaved at lock-region granularity. libstdc++ container preconditions (-D_GLIBCXX_ASSERTIONS) are proof obligations.', 'DESIGN.md 3.7, 5/C09', T_E1 + T_INJ),
     'C10': e1('For every history over {push(v), pop, unblock_push(e), unblock_pop(e)} up to the stated length and limits, and for all pushed values (solver-decided), the real limited_queue<int> agrees with a reference '
-              'model on the state of every push/pop future after every step, on size()/empty(), on which waiter an unblock hits and with which exception, and on cancellation + allocation balance at destruction. Unit h_lq_conc: two operations of two threads interleaved at lock-region granularity.',
+              'model on the state of every push/pop future after every step, on size()/empty(), on which waiter an unblock hits and with which exception, and on cancellation + allocation balance at destruction. Unit h_lq_conc: two operations out of {push, pop, unblock_push} of two threads interleaved at lock-region granularity. libstdc++ container preconditions (-D_GLIBCXX_ASSERTIONS) are proof obligations.',
               'DESIGN.md 2, 3.7, 5/C10', T_E1 + T_INJ),
     'C11': e1('Thread pool under a cooperative thread model (std::thread = table entry run by the harness scheduler, condition_variable::wait parks and unwinds to the scheduler, a notified worker restarts worker() - equivalent because '
               'it parks holding only the lock; notify_one pick is a skeleton input): pools of 1..3 workers, <=3 submissions of six kinds plus jobs submitting jobs, own-thread stop(), delete pool from a worker, stop then submit; '
               'per job ran + cancelled == 1, ran only on a worker id, cancelled coroutines see await_canceled_exception, run() futures report a broken promise, nothing forgotten after a drain (lost notification) or after stop(), '
               'workers joined / self-detached, no join deadlock, allocation balance. Unit h_stop_race: a submission against stop() of another thread placed in front of every mutex acquisition of the submission: nothing is left pending once stop() has returned. Known finding (printed, exit 0): raw-handle jobs meeting a stopped pool are dropped (D9).', 'DESIGN.md 3.7, 5/C11', T_E1 + T_INJ),
     'C12': e1('Manual-mode histories over sleep_until/schedule, cancel(id[,e]), remove(id), get_expired(now) with time points enumerated up to weak order (ties included) and identifiers canonical, against a per-sleep '
-              'reference model; the interval() generator with a stop token (request_stop while sleeping / parked / before start; double-lock of the scheduler mutex is a failure); start(awaitable) under a virtual '
+              'reference model; unit h_cover: one step (every cancel / get_expired, thorough also sleep / cancel(e) / remove, at every position) from every abstract heap state with <= 3 entries (alive or emptied) that a breadth-first search over the abstraction reaches (209 states; quick: those reached within 5 operations); unit h_order: 6 (thorough 5..7) pending sleeps in arrival orders, then get_expired at each time value in turn hands out exactly the due sleep; the interval() generator with a stop token (request_stop while sleeping / parked / before start; double-lock of the scheduler mutex is a failure); start(awaitable) under a virtual '
               'clock with up to 3 scripted sleepers (never early, on time when idle, in deadline order, cancels hit exactly their target); destruction cancels pending sleeps. Unit h_start_mt: another thread\'s sleep_until placed in front of every acquisition of the scheduler mutex by the scheduling thread, or inside its timed wait (the wait must be woken when the new entry is the earliest): the foreign sleep is woken at its own time point.', 'DESIGN.md 3.8, 5/C12', T_E1 + T_INJ),
     'C13': e1('Scripted generator bodies (yield lvalue/temporary, await ready / pending future, throw, return; up to 6 entries) x sequences of 11 consumer access styles (next()/value(), iterators, range-for, call -> future, '
               'co_await of either) for generator<int> and generator<int,int>: observed values, argument echo, exception position, single end indication then done(), RAII probes and allocation balance when '
@@ -79,9 +79,9 @@ CLAIMED = {
               'immediate failure on a disconnected emitter, allocation balance. Unit sig_mt (listeners subscribing on another thread): 7 pairs of collector call / coroutine subscription / connect / last-handle destruction, the operation of the second thread placed in front of every atomic instruction of the first (one pre-emption), then a second emission and disconnect: no lost listener, no duplicate, cancellation reaches everybody.', 'DESIGN.md 3.8, 5/C15', T_E1 + T_INJ),
     'C16': e1('Histories over publish one / batch, subscribe recent / at position / by copy, next() polled / blocking-when-due / awaited by a coroutine, kick, leave, close for <=2 subscribers, three subscription modes and '
               'queue configurations unlimited,(1,1),(2,1),(3,2),(5,5) against a reference stream + cursors: all_values contiguous, duplicate-free and in order until a justified first end indication; skipping modes '
-              'strictly forward, skip_to_recent newest; close / destruction wakes parked subscribers; copies continue from the original\'s position; values symbolic. Unit pub_conc: an operation of the publisher thread in front of every mutex acquisition of an awaited next() of the subscriber, caught up (pub_conc) or with one unread value (pub_conc_ahead).', 'DESIGN.md 3.7, 5/C16', T_E1 + T_INJ),
-    'C17': e2('Histories of copy / drop / await (callback awaiter keeping or dropping its own handle, coroutine) / resolve (value, exception, dropped promise) for seven ways of constructing a shared_future<counted>, incl. '
-              'default-construct + get_promise(): same result for all copies, each awaiter resumed once after resolution, counted value constructed and destroyed once, state freed exactly once and only after '
+              'strictly forward, skip_to_recent newest; close / destruction wakes parked subscribers; copies continue from the original\'s position; values symbolic; hand-written 5..9 step histories (lag == max, lag > max, slot reuse after a kicked occupant, ...); thorough: one step from every abstract state a breadth-first search reaches within 3 operations. Unit pub_conc: an operation of the publisher thread in front of every mutex acquisition of an awaited next() of the subscriber, caught up (pub_conc) or with one unread value (pub_conc_ahead).', 'DESIGN.md 3.7, 5/C16', T_E1 + T_INJ),
+    'C17': e2('Histories of copy / drop / await (callback awaiter keeping or dropping its own handle, coroutine) / resolve (value, exception, dropped promise) for eight ways of constructing a shared_future<counted>, incl. '
+              'default-construct + get_promise() and default-construct + init_if_needed() + copy + get_promise() through the copy: same result for all copies, each awaiter resumed once after resolution, counted value constructed and destroyed once, state freed exactly once and only after '
               'resolution (allocation accounting + use-after-free / double-free obligations). Unit sf_mt (E2, every SC interleaving): copy / drop / await / construction-from-a-promise-taking-function on one thread against the resolving thread.', 'DESIGN.md 3, 5/C17', T_E1 + ' ; ' + T_E2, engine='E1+E2'),
     'C18': e1('callback_await / callback_await_alloc (5 allocators), make_promise (3 storages), discard, call_fn_future_awaiter and 7 future_conv converter shapes x outcome (value, exception, drop, converter throws) x timing '
               '(resolved before / after registration on the same thread) x mode: completion runs exactly once and not before the outcome exists, outcome matches, converter result or exception reaches the outer '
